@@ -121,7 +121,9 @@ Definition reply_hdr_ok (code : N) (bytes : list N) (blen : option N) : bool :=
   && (N.land (u bytes 4 4) 3 =? 1) && hasb (u bytes 4 4) 4 && (u bytes 4 4 <? 16)
   && (u bytes 8 4 <=? 4096)
   && match blen with Some n => (12 + n <=? N.of_nat (List.length bytes)) | None => true end.
-Definition reply_size_is (bytes : list N) (n : N) : bool := (u bytes 8 4 =? n) && (N.of_nat (List.length bytes) =? 12 + n).
+(* the announced size is [n] and that many bytes follow the header; whatever the peer writes after
+   them belongs to the next message of the stream, not to this reply *)
+Definition reply_size_is (bytes : list N) (n : N) : bool := (u bytes 8 4 =? n) && (12 + n <=? N.of_nat (List.length bytes)).
 
 Definition is_ok (res : val) : bool := match res with VL (VS "ok" :: _) => true | _ => false end.
 Definition ok_vals (res : val) : list val := match res with VL (VS "ok" :: l) => l | _ => [] end.
@@ -224,7 +226,7 @@ Definition judge_step (s : fstate) (name : string) (a data fds : list N) (region
                   (if negb good then (6, s1)
                    else match ok_vals res with
                         | [VN o; VN z; VN f; VH p] =>
-                            ((if (o =? arg a 0) && (z =? size) && (f =? u sb 20 4) && list_eqb (hex_bytes p) (skipn 24 sb) then 0 else 3), s1)
+                            ((if (o =? arg a 0) && (z =? size) && (f =? u sb 20 4) && list_eqb (hex_bytes p) (firstn (N.to_nat size) (skipn 24 sb)) then 0 else 3), s1)
                         | _ => (3, s1)
                         end)
                 else ((if good then 3 else 0), s1)
